@@ -35,13 +35,29 @@ def _ms(t):
     return None if t is None else int(round(t * 1000))
 
 
+RANK_BASE = 2 ** 20          # Events.rank_base
+
+
+def _sort_key(n):
+    """Events.n_rank: suite.rank for a suite; for a test the integer order-isomorphic to the pair ReportWriter sorts by,
+    (test.rank, position of the test in test.parent_suite.get_tests())."""
+    from lemoncheesecake.testtree import BaseTest
+    rank = getattr(n, "rank", 0)
+    if not isinstance(n, BaseTest):
+        return rank
+    siblings = n.parent_suite.get_tests() if n.parent_suite else [n]
+    pos = next((i for i, s in enumerate(siblings) if s is n), 0)
+    assert isinstance(rank, int) and 0 <= pos < RANK_BASE, (rank, pos)
+    return rank * RANK_BASE + pos
+
+
 def _node(n):
     hier = list(n.hierarchy)
     return {"parent": [x.name for x in hier[:-1]],
             "meta": {"name": n.name, "description": n.description, "tags": list(n.tags),
                      "properties": [[k, v] for k, v in n.properties.items()],
                      "links": [[u, d] for u, d in n.links]},
-            "rank": getattr(n, "rank", 0)}
+            "rank": _sort_key(n)}
 
 
 _LOC = {0: "session_setup", 1: "session_teardown", 2: "suite_setup", 3: "suite_teardown", 4: "test"}
@@ -99,7 +115,17 @@ def real_event(p):
         x.tags.extend(m["tags"])
         x.properties.update({k: v for k, v in m["properties"]})
         x.links.extend((u, d) for u, d in m["links"])
-        x.rank = n["rank"]
+        if cls is BaseTest:
+            # n["rank"] is the writer's sort key: rank * RANK_BASE + position among the parent's tests
+            x.rank, pos = divmod(n["rank"], RANK_BASE)
+            if parent is not None:
+                for i in range(pos):
+                    parent.add_test(BaseTest("__sibling_%d" % i, ""))
+                parent.add_test(x)
+            else:
+                assert pos == 0
+        else:
+            x.rank = n["rank"]
         x.parent_suite = parent
         return x
 
@@ -564,8 +590,11 @@ def perturb_stream(rng, events):
     elif kind == "rerank":
         # the writer copies node.rank at Start time and the accessors sort children by it (stable)
         for e in ev:
-            if e[0] in ("suite_start", "test_start", "test_skipped", "test_disabled"):
+            if e[0] == "suite_start":
                 e[1]["rank"] = rng.choice([0, 0, 1, 2, 3, 7])
+            elif e[0] in ("test_start", "test_skipped", "test_disabled"):
+                # (rank, position in the suite): ties on the rank are broken by the position, not by the arrival order
+                e[1]["rank"] = rng.choice([0, 0, 1, 2, -1]) * RANK_BASE + (rng.choice([0, 1, 2, 3, 5]) if e[1]["parent"] else 0)
     elif kind == "truncate":
         ev = ev[:i]
     elif kind == "move_late":
